@@ -27,6 +27,10 @@ type mergeCase struct {
 	Kind      string  `json:"kind"`
 	Threshold float64 `json:"threshold"` // MinimumWeightedSimilarity
 	Jobs      int     `json:"jobs,omitempty"` // IndividualNodesCompareOptions.Jobs (library route)
+	// Hist > 0: after the merge under test both input documents are compared and read (every
+	// lazy cache filled), edited through the public API (Hist selects the edits) and merged
+	// again sequentially: the result must be that of the same two texts decoded from nothing
+	Hist int `json:"hist,omitempty"`
 	ViaQuery  bool    `json:"via_query,omitempty"`
 }
 
@@ -104,6 +108,82 @@ func inputRefs(g *gen.GraphBP, side string) (map[string]map[string]bool, bool) {
 		}
 	}
 	return out, closed
+}
+
+// mergeAfterHistory: documents that were merged, compared, read and then edited through the
+// public API merge exactly like the same two texts decoded from nothing.
+func mergeAfterHistory(ld, rd *gedcom.Document, c mergeCase) *harness.Failure {
+	warm := func(d *gedcom.Document) {
+		_ = d.Individuals().Compare(d.Individuals(), gedcom.NewIndividualNodesCompareOptions())
+		for _, i := range d.Individuals() {
+			_, _, _, _ = i.Families(), i.Spouses(), i.Parents(), i.Children()
+		}
+		for _, f := range d.Families() {
+			_, _, _ = f.Husband(), f.Wife(), f.Children()
+		}
+	}
+	warm(ld)
+	warm(rd)
+	edited := 0
+	for k, d := range []*gedcom.Document{ld, rd} {
+		inds, fams := d.Individuals(), d.Families()
+		if len(inds) == 0 {
+			continue
+		}
+		h := c.Hist + 7*k
+		x, y := inds[h%len(inds)], inds[(h/3)%len(inds)]
+		func() {
+			defer func() { _ = recover() }()
+			switch h % 5 {
+			case 0:
+				x.AddBirthDate(fmt.Sprintf("%d", 1700+h%200))
+			case 1:
+				d.AddFamilyWithHusbandAndWife(fmt.Sprintf("FH%d", k), x, y)
+			case 2:
+				if len(fams) > 0 {
+					fams[h%len(fams)].AddChild(y)
+				}
+			case 3:
+				if len(fams) > 0 {
+					for _, n := range fams[h%len(fams)].Nodes() {
+						if t := n.Tag().Tag(); t == "HUSB" || t == "WIFE" || t == "CHIL" {
+							fams[h%len(fams)].DeleteNode(n)
+							break
+						}
+					}
+				}
+			default:
+				x.AddName(fmt.Sprintf("Afterwards%d /Named/", h))
+			}
+			edited++
+		}()
+		warm(d)
+	}
+	if edited == 0 {
+		return nil
+	}
+	merge := func(l, r *gedcom.Document) (string, error) {
+		o := gedcom.NewIndividualNodesCompareOptions()
+		o.SimilarityOptions.MinimumWeightedSimilarity = c.Threshold
+		m, err := gedcom.MergeDocumentsAndIndividuals(l, r, gedcom.EqualityMergeFunction, o)
+		if err != nil {
+			return "", err
+		}
+		return m.String(), nil
+	}
+	// live first: decoding resets the process-wide caches
+	lt, rt := ld.String(), rd.String()
+	live, errL := merge(ld, rd)
+	fl, err1 := gedcom.NewDocumentFromString(lt)
+	fr, err2 := gedcom.NewDocumentFromString(rt)
+	if err1 != nil || err2 != nil {
+		return nil
+	}
+	fresh, errF := merge(fl, fr)
+	if (errL == nil) != (errF == nil) || live != fresh {
+		return harness.Failf("history-changes-merge", "two documents that were compared, read and edited through the public API merge to\n%s(%v)\nthe same two texts decoded from nothing merge to\n%s(%v)\nleft:\n%sright:\n%s", live, errL, fresh, errF, lt, rt)
+	}
+	return nil
 }
 
 // directionalDates: the subtree holds a DATE with a Before or After constraint (the class
@@ -370,6 +450,12 @@ func check(c mergeCase) (fl *harness.Failure, oc outcome) {
 			}
 		}
 	}
+	// last (it edits the input documents, and the merged document may hold their nodes):
+	if c.Hist > 0 && !c.ViaQuery {
+		if f := mergeAfterHistory(ld, rd, c); f != nil {
+			return f, oc
+		}
+	}
 	return nil, oc
 }
 
@@ -484,6 +570,9 @@ func genCase(rt *rapid.T) mergeCase {
 	mark(c.Right, "R")
 	c.Threshold = rapid.SampledFrom([]float64{gedcom.DefaultMinimumSimilarity, gedcom.DefaultMinimumSimilarity, 0.95, 0.3}).Draw(rt, "threshold")
 	c.Jobs = rapid.SampledFrom([]int{0, 0, 1, 2, 4, 16}).Draw(rt, "jobs")
+	if rapid.IntRange(0, 3).Draw(rt, "history") == 2 {
+		c.Hist = rapid.IntRange(1, 1000).Draw(rt, "hist")
+	}
 	c.ViaQuery = rapid.IntRange(0, 5).Draw(rt, "viaQuery") == 0
 	if c.ViaQuery {
 		c.Threshold = gedcom.DefaultMinimumSimilarity
@@ -493,7 +582,7 @@ func genCase(rt *rapid.T) mergeCase {
 
 func TestCheckMerge(t *testing.T) {
 	s := harness.NewSub("document-merge-accounting-and-references",
-		"pairs of referentially closed family graphs (<= 7 people, <= 3 families): a base and an independently edited copy (people dropped/added/renamed, facts changed) with the same pointers or completely renumbered, disjoint documents, documents whose pointers clash, an empty side; every person carries a unique marker and two unique fact leaves; thresholds default/0.95/0.3; Jobs 0/1/2/4/16 (the merge matches people with the same machinery as Compare); library call and the query function MergeDocumentsAndIndividuals. Oracle: output decodes, every marker exactly once, no two people of one side merged, merged people hold all unique facts and every other line of both originals (an equal node under an equal parent chain), inputs unchanged; every HUSB/WIFE/CHIL of the output resolves to an individual carrying the marker of a person the inputs refer to in that family and role, every input reference is still there, FAMS/FAMC resolve to families; non-trivial = a merged pair and an unmatched person on each side")
+		"pairs of referentially closed family graphs (<= 7 people, <= 3 families): a base and an independently edited copy (people dropped/added/renamed, facts changed) with the same pointers or completely renumbered, disjoint documents, documents whose pointers clash, an empty side; every person carries a unique marker and two unique fact leaves; thresholds default/0.95/0.3; Jobs 0/1/2/4/16 (the merge matches people with the same machinery as Compare); library call and the query function MergeDocumentsAndIndividuals. For a quarter of the library cases the two documents are afterwards compared, read, edited through the public API and merged again (sequentially): the text must be that of the same two texts decoded from nothing. Oracle: output decodes, every marker exactly once, no two people of one side merged, merged people hold all unique facts and every other line of both originals (an equal node under an equal parent chain), inputs unchanged; every HUSB/WIFE/CHIL of the output resolves to an individual carrying the marker of a person the inputs refer to in that family and role, every input reference is still there, FAMS/FAMC resolve to families; non-trivial = a merged pair and an unmatched person on each side")
 	s.Rapid(t, harness.Share(harness.Pick(30000, 600000)), 100, func(rt *rapid.T) {
 		c := genCase(rt)
 		fl, oc := check(c)
